@@ -271,6 +271,12 @@ def r2(ctx):
         none_ok = any(isinstance(r.value, ast.Constant) and r.value.value is None for r in rets) and bool(dis)
         time_ok = any(isinstance(r.value, ast.Call) and norm_text(r.value).replace(" ", "") in ("datetime.time(hour=timer_state.hour,minute=timer_state.minute)", "datetime.time(timer_state.hour,timer_state.minute)") for r in rets)
         ctx.check(none_ok and time_ok, R, f"{clsname}.next_quick_timer:value", m, f.node, "None when disabled, else time(hour, minute) of that timer", "; ".join(norm_text(r) for r in rets))
+        # the answer is a function of the last timer-status record alone: the getter reads no other stored state (the AC status
+        # carries a "timer set" flag of its own, from a different frame - consulting it makes a fresh timer record read as None)
+        foreign = sorted({norm_text(x) for x in walk_no_nested(f.node) if isinstance(x, ast.Attribute) and isinstance(x.value, ast.Attribute) and isinstance(x.value.value, ast.Name) and x.value.value.id == "self" and x.value.attr != "_ac_timer_status"})
+        ctx.check(not foreign, R, f"{clsname}.next_quick_timer:reads-the-timer-record-only", m, f.node, "next_quick_timer reads self._ac_timer_status and nothing else of the stored state", ", ".join(foreign))
+        if foreign:
+            continue
         # ... decided on witness timer states (disabled or not, midnight included) by the checker's interpreter
         import datetime as _dt
 
